@@ -70,7 +70,7 @@ def run(ctx):
     rnd.shuffle(hist)
     # prefer histories with several notifications and two-edit notifications
     hist.sort(key=lambda r_: -(len(r_["notifs"]) * 2 + sum(len(n_) for n_ in r_["notifs"])))
-    hist = hist[: (64 if quick else 600)]
+    hist = hist[: (64 if quick else 192)]
     recs = []
     for i, h in enumerate(hist):
         doc = h["init"]
